@@ -16,9 +16,10 @@ use std::sync::{Arc, Mutex};
 pub enum SchedSpec {
     /// uniform random choice among runnable tasks at every scheduling point
     Uniform { seed: u64 },
-    /// PCT-style: random initial priorities, `depth` priority-change points over `horizon` steps
+    /// PCT-style: random initial priorities, `depth` priority-change points among the first `horizon`
+    /// decision points (scheduling points with more than one runnable task)
     Pct { seed: u64, depth: u32, horizon: u32 },
-    /// default policy plus `k` preemptions at uniformly drawn steps below `horizon`
+    /// default policy plus `k` preemptions at uniformly drawn decision points below `horizon`
     Sparse { seed: u64, k: u32, horizon: u32 },
     /// default policy plus the listed deviations (step, task id): the replay / minimisation form
     Scripted { dev: Vec<(u32, u32)> },
@@ -41,6 +42,9 @@ pub struct SeededScheduler {
     rng: Rng,
     started: bool,
     step: u32,
+    /// decision points seen so far: scheduling points at which more than one task was runnable
+    /// (sequential set-up phases of a program do not count)
+    dp: u32,
     prio: Vec<u64>,
     change_points: Vec<u32>,
     sparse_points: Vec<u32>,
@@ -69,7 +73,7 @@ impl SeededScheduler {
             }
             _ => {}
         }
-        SeededScheduler { spec, rng, started: false, step: 0, prio: vec![], change_points, sparse_points, log }
+        SeededScheduler { spec, rng, started: false, step: 0, dp: 0, prio: vec![], change_points, sparse_points, log }
     }
 
     fn default_choice(runnable: &[u32], current: Option<u32>, yielding: bool) -> u32 {
@@ -108,6 +112,12 @@ impl Scheduler for SeededScheduler {
         let current: Option<u32> = current_task.map(|t| usize::from(t) as u32);
         let def = Self::default_choice(&runnable, current, is_yielding);
         let step = self.step;
+        // PCT change points and sparse preemptions are placed on decision points, not raw steps
+        let contested = runnable.len() > 1;
+        let dp = self.dp;
+        if contested {
+            self.dp += 1;
+        }
         let others: Vec<u32> = match current {
             Some(c) => runnable.iter().cloned().filter(|t| *t != c).collect(),
             None => runnable.clone(),
@@ -119,7 +129,7 @@ impl Scheduler for SeededScheduler {
                 pool[self.rng.below(pool.len() as u64) as usize]
             }
             SchedSpec::Pct { .. } => {
-                if self.change_points.contains(&step) {
+                if contested && self.change_points.contains(&dp) {
                     if let Some(c) = current {
                         // demote the running task below everything else
                         let _ = self.prio_of(c);
@@ -139,7 +149,7 @@ impl Scheduler for SeededScheduler {
                 best
             }
             SchedSpec::Sparse { .. } => {
-                if self.sparse_points.contains(&step) && !others.is_empty() {
+                if contested && self.sparse_points.contains(&dp) && !others.is_empty() {
                     others[self.rng.below(others.len() as u64) as usize]
                 } else {
                     def
